@@ -112,6 +112,26 @@ fn catalogue_generated() -> Vec<FileSet> {
         FileSet { name: "valid+sub-directory", entries: vec![f("good.st", VALID_SMALL), Entry::SubDir("sub")] },
         FileSet { name: "valid+non-st-extension", entries: vec![f("good.st", VALID_SMALL), f("notes.txt", "this is not structured text ?")] },
     ];
+    // degenerate files: a few characters and nothing else (no line end), alone, beside a valid file, and two of them
+    let tiny: [(&str, &str); 11] = [
+        ("one-invalid-character", "?"),
+        ("two-invalid-characters", "@@"),
+        ("invalid-character-and-line-end", "?\n"),
+        ("blank", " "),
+        ("line-end", "\n"),
+        ("semicolon", ";"),
+        ("stray-keyword", "END_VAR"),
+        ("opening-quote", "'"),
+        ("opened-comment", "(*"),
+        ("one-letter", "a"),
+        ("one-digit", "1"),
+    ];
+    for (tname, text) in tiny {
+        let leak = |s: String| -> &'static str { Box::leak(s.into_boxed_str()) };
+        sets.push(FileSet { name: leak(format!("tiny:{}", tname)), entries: vec![f("a.st", text)] });
+        sets.push(FileSet { name: leak(format!("valid+tiny:{}", tname)), entries: vec![f("good.st", VALID_SMALL), f("tiny.st", text)] });
+        sets.push(FileSet { name: leak(format!("two-tiny:{}", tname)), entries: vec![f("t1.st", text), f("t2.st", text)] });
+    }
     // an empty directory is the set with no entries
     sets.push(FileSet { name: "empty-directory", entries: vec![] });
     sets
@@ -355,6 +375,58 @@ pub fn run(ctx: &mut Ctx) {
         if ctx.want_sample(i as u64, total) {
             ctx.sample(json!({"set": r.set, "presentation": r.label, "check": triple(&r.check), "echo_exit": r.echo.exit, "tokenize_exit": r.tokenize.exit}));
         }
+    }
+    // (1b) logging is no part of the contract: with -v … -vvvv before the command the exit status, the OK line and
+    // the coded diagnostics are those of the quiet run (first presentation of every set, all three commands)
+    {
+        let mut firsts: Vec<&(usize, &FileSet, Presentation)> = vec![];
+        let mut seen_sets = std::collections::BTreeSet::new();
+        for c in &cases {
+            if seen_sets.insert(c.1.name) {
+                firsts.push(c);
+            }
+        }
+        let levels = ["-v", "-vv", "-vvv", "-vvvv", "--verbose"];
+        let jobs: Vec<(&(usize, &FileSet, Presentation), &str)> = firsts.iter().flat_map(|c| levels.iter().map(move |l| (*c, *l))).collect();
+        let res: Vec<Vec<(String, String)>> = jobs
+            .par_iter()
+            .map(|((n, s, p), level)| {
+                let m = materialise(s, p, &scratch, 1_000_000 + *n * 8 + levels.iter().position(|l| l == level).unwrap());
+                let mut out = vec![];
+                for cmd in ["check", "echo", "tokenize"] {
+                    let mut quiet: Vec<&str> = vec![cmd];
+                    quiet.extend(m.args.iter().map(|x| x.as_str()));
+                    let mut loud: Vec<&str> = vec![level, cmd];
+                    loud.extend(m.args.iter().map(|x| x.as_str()));
+                    let q = cli::run(&quiet, &m.tmp, Duration::from_secs(30));
+                    let l = cli::run(&loud, &m.tmp, Duration::from_secs(60));
+                    let codes = |r: &CliRun| {
+                        let mut c: Vec<String> = r.diags.iter().map(|d| d.code.clone()).collect();
+                        c.sort();
+                        c
+                    };
+                    if l.crashed() && !q.crashed() {
+                        out.push((format!("verbose/{}/{}#crashed", s.name, cmd), format!("`{} {}` {} on {} ({}); the quiet run {}", level, cmd, l.summary(), s.name, p.label, q.summary())));
+                    } else if l.exit != q.exit || (cmd == "check" && (l.has_ok_line != q.has_ok_line || codes(&l) != codes(&q))) {
+                        out.push((
+                            format!("verbose/{}/{}#differs", s.name, cmd),
+                            format!("`{} {}` on {} ({}): exit {:?}, OK line {}, codes {:?}; the quiet run: exit {:?}, OK line {}, codes {:?}", level, cmd, s.name, p.label, l.exit, l.has_ok_line, codes(&l), q.exit, q.has_ok_line, codes(&q)),
+                        ));
+                    }
+                }
+                out
+            })
+            .collect();
+        for (((_, s, p), level), fs) in jobs.iter().zip(res.iter()) {
+            ctx.evaluations += 3;
+            ctx.transitions += 6;
+            ctx.traces += 6;
+            ctx.distinct(&format!("verbose|{}|{}", s.name, level));
+            for (k, w) in fs {
+                ctx.fail(k, w, json!({"set": s.name, "presentation": p.label, "mode": "verbose", "level": level}));
+            }
+        }
+        ctx.bounds.insert("verbosity".into(), json!(format!("{} file sets x {:?} x 3 commands", firsts.len(), levels)));
     }
     // (3) checking a directory is equivalent to checking the list of the files in it, and the
     // verdict does not depend on the presentation at all
